@@ -3,12 +3,17 @@ package main
 // Loops: cut at the head with invariant, havoc of the modified locations, variant.
 
 import (
+	"bytes"
+	"crypto/sha1"
+	"encoding/hex"
 	"fmt"
 	"go/ast"
+	"go/printer"
 	"go/token"
 	"go/types"
 	"os"
 	"strconv"
+	"strings"
 )
 
 type havocLoc struct {
@@ -267,18 +272,32 @@ type loopSpec struct {
 	scopeAt token.Pos
 }
 
-// loopSig is the header of a loop as text: what the loop iterates over or its condition.
-func loopSig(n ast.Node) string {
+// loopSig is the header of a loop as text (what it iterates over, or its condition) followed by a short hash of its
+// body: "range m #1a2b3c4d".
+func (fc *FuncCtx) loopSig(n ast.Node) string {
+	hdr, body := "", ast.Node(nil)
 	switch x := n.(type) {
 	case *ast.RangeStmt:
-		return "range " + types.ExprString(x.X)
+		hdr, body = "range "+types.ExprString(x.X), x.Body
 	case *ast.ForStmt:
-		if x.Cond == nil {
-			return "for"
+		hdr, body = "for", x.Body
+		if x.Cond != nil {
+			hdr = "for " + types.ExprString(x.Cond)
 		}
-		return "for " + types.ExprString(x.Cond)
+	default:
+		return ""
 	}
-	return ""
+	var b bytes.Buffer
+	printer.Fprint(&b, fc.w.Fset, body)
+	sum := sha1.Sum(b.Bytes())
+	return hdr + " #" + hex.EncodeToString(sum[:4])
+}
+
+func sigHeader(sig string) string {
+	if i := strings.LastIndex(sig, " #"); i >= 0 {
+		return sig[:i]
+	}
+	return sig
 }
 
 // loopContract finds the contract of a loop. Contracts are numbered in execution order; when the contract file
@@ -297,31 +316,41 @@ func (fc *FuncCtx) loopContract(n ast.Node) (*LoopContract, int) {
 				ast.Inspect(fc.decl.Body, func(nd ast.Node) bool {
 					switch nd.(type) {
 					case *ast.ForStmt, *ast.RangeStmt:
-						fc.codeSigs[loopSig(nd)]++
+						full := fc.loopSig(nd)
+						fc.codeSigs[full]++
+						fc.codeSigs[sigHeader(full)]++
 					}
 					return true
 				})
 			}
 		}
-		sig := loopSig(n)
-		// 1. same header (the lowest unused ordinal among equals, preferring the loop's own ordinal)
-		if c := fc.contract.Loops[ord]; c != nil && !fc.loopUsed[c] && c.Sig != "" && c.Sig == sig {
-			lc = c
-		}
-		if lc == nil {
+		sig := fc.loopSig(n)
+		pick := func(match func(c *LoopContract) bool) *LoopContract {
+			if c := fc.contract.Loops[ord]; c != nil && !fc.loopUsed[c] && match(c) {
+				return c
+			}
 			best := 0
 			for o, c := range fc.contract.Loops {
-				if !fc.loopUsed[c] && c.Sig != "" && c.Sig == sig && (best == 0 || o < best) {
+				if !fc.loopUsed[c] && match(c) && (best == 0 || o < best) {
 					best = o
 				}
 			}
 			if best != 0 {
-				lc = fc.contract.Loops[best]
+				return fc.contract.Loops[best]
 			}
+			return nil
 		}
-		// 2. the contract with this ordinal, unless its own header still exists elsewhere in the function
+		// 1. the very same loop (header and body)
+		lc = pick(func(c *LoopContract) bool { return c.Sig != "" && c.Sig == sig })
+		// 2. same header, for a contract whose own loop (header and body) is not in the function any more
 		if lc == nil {
-			if c := fc.contract.Loops[ord]; c != nil && !fc.loopUsed[c] && (c.Sig == "" || fc.codeSigs[c.Sig] == 0) {
+			lc = pick(func(c *LoopContract) bool {
+				return c.Sig != "" && sigHeader(c.Sig) == sigHeader(sig) && fc.codeSigs[c.Sig] == 0
+			})
+		}
+		// 3. the contract with this ordinal, unless its own header still exists elsewhere in the function
+		if lc == nil {
+			if c := fc.contract.Loops[ord]; c != nil && !fc.loopUsed[c] && (c.Sig == "" || fc.codeSigs[sigHeader(c.Sig)] == 0) {
 				lc = c
 			}
 		}
@@ -339,7 +368,7 @@ func (fc *FuncCtx) loopContract(n ast.Node) (*LoopContract, int) {
 	if fc.loopSigs == nil {
 		fc.loopSigs = map[int]string{}
 	}
-	fc.loopSigs[ord] = loopSig(n)
+	fc.loopSigs[ord] = fc.loopSig(n)
 	if lc == nil {
 		// no written contract: no invariant (everything the body assigns is unknown at the head); a counting
 		// loop gets its obvious variant, any other loop must be proved to terminate by a written one
